@@ -520,11 +520,13 @@ func RunCheck(o CheckOpts) int {
 		return !contains(ledger.PackageFuncs, n)
 	}
 	for _, ob := range obs {
-		if (ob.Result == "failed" || ob.Result == "unknown") && (ob.Kind == "effect" || ob.Kind == "discipline" || ob.Kind == "sweep" || ob.Kind == "goroutine") {
+		if ob.Result == "failed" || ob.Result == "unknown" {
 			culprit := ""
-			if isNewFunc(ob.Function) {
+			structural := ob.Kind == "effect" || ob.Kind == "discipline" || ob.Kind == "sweep" || ob.Kind == "goroutine"
+			if isNewFunc(ob.Function) && cs.Funcs[ob.Function] == nil {
+				// also the no-panic sweep of a function nobody has given a precondition
 				culprit = ob.Function
-			} else if i := strings.LastIndex(ob.Name, "/"); i >= 0 && isNewFunc(ob.Name[i+1:]) {
+			} else if i := strings.LastIndex(ob.Name, "/"); structural && i >= 0 && isNewFunc(ob.Name[i+1:]) {
 				culprit = ob.Name[i+1:]
 			}
 			if culprit != "" {
